@@ -136,3 +136,233 @@ def main_tail():
     c.ens_exc("SystemExit", "exc_arg == 0 or exc_arg == 1", "status_is_0_or_1")
     c.loop(0, invariant=["forall(0, idx, lambda k: not fatal(k))"], pure=True)
     return c
+
+
+# ------------------------------------------------------------------ C15: the discovery slice of main()
+def discovery_slice(stmts):
+    """mechanical extraction: from the `if args.cfile or args.hfile:` statement up to (not
+    including) the last `for ... in files` loop (the processing loop, C04)"""
+    start = end = None
+    for i, st in enumerate(stmts):
+        if start is None and isinstance(st, ast.If) and "args.cfile" in ast.unparse(st.test):
+            start = i
+        if isinstance(st, ast.For) and isinstance(st.iter, ast.Name) and st.iter.id == "files":
+            end = i
+    if start is None or end is None:
+        raise SpecError("main(): discovery part not found")
+    return stmts[start:end], stmts[:start] + stmts[end:]
+
+
+class Work:
+    """the work list: argument k (or glob result k) with what pathlib says about it --
+    external functions under an assumed contract"""
+
+    def __init__(self):
+        self.n = z3.Int(fresh_name("nwork"))
+        self.exists = z3.Array(fresh_name("exists"), I, B)
+        self.isfile = z3.Array(fresh_name("is_file"), I, B)
+        self.isdir = z3.Array(fresh_name("is_dir"), I, B)
+        self.suffix = z3.Array(fresh_name("suffix"), I, S)
+        self.pstr = z3.Array(fresh_name("pathstr"), I, S)
+        self.rc = z3.Array(fresh_name("git_rc"), I, I)
+
+
+def discovery_contract(inline=False):
+    c = Contract(MAIN)
+    c.body_slice = discovery_slice
+    holder = {}
+
+    def setup(E, st):
+        w = Work()
+        holder["w"] = w
+        st.assume(w.n >= 0)
+        K = z3.Int(fresh_name("k"))
+        # assumed pathlib contract: a regular file or a directory exists; nothing is both
+        st.assume(z3.ForAll([K], z3.And(z3.Implies(z3.Select(w.isfile, K), z3.Select(w.exists, K)),
+                                        z3.Implies(z3.Select(w.isdir, K), z3.Select(w.exists, K)),
+                                        z3.Not(z3.And(z3.Select(w.isfile, K), z3.Select(w.isdir, K))))))
+        st.ghost["glob_calls"] = z3.IntVal(0)
+        st.ghost["bad_glob"] = z3.BoolVal(False)
+
+        def seq_work(E_, s, ref):
+            return w.n, (lambda i, s2=None: (s2 if s2 is not None else s).alloc(ObjCell("WorkItem", {"index": mk_int(i)})))
+        E.seq_models["WorkList"] = seq_work
+
+        def m_path(E_, s, args, kw):
+            item = s.cell(args[0])
+            i = int_term(item.attrs["index"])
+            return [(s, s.alloc(ObjCell("PathObj", {"index": mk_int(i), "suffix": SStr(z3.Select(w.suffix, i)),
+                                                      "name": Opaque("path.name")})))]
+
+        def path_attr(E_, s, ref, attr):
+            i = int_term(s.cell(ref).attrs["index"])
+            table = {"exists": w.exists, "is_file": w.isfile, "is_dir": w.isdir}
+            if attr in table:
+                return [(s, Builtin("Path." + attr, lambda E__, s_, a, k, arr=table[attr]: [(s_, mk_bool(z3.Select(arr, i)))]))]
+            return None
+        E.attr_models["PathObj"] = path_attr
+
+        def m_str(E_, s, args, kw):
+            v = args[0]
+            if isinstance(v, Ref) and isinstance(s.cell(v), ObjCell) and s.cell(v).cls == "PathObj":
+                return [(s, SStr(z3.Select(w.pstr, int_term(s.cell(v).attrs["index"]))))]
+            return [(s, Opaque("str()"))]
+        E.spec_builtins["str"] = Builtin("str", m_str)
+
+        def m_glob(E_, s, args, kw):
+            """glob.glob(pattern, recursive=True): assumed to return exactly the non-hidden paths
+            under the root whose last component ends in .c / .h; the call must have that shape"""
+            pat = args[0]
+            rec = kw.get("recursive", False)
+            ok_shape = False
+            if isinstance(pat, str):
+                ok_shape = pat == "**/*.[ch]"
+                cond = z3.BoolVal(ok_shape and rec is True)
+            else:
+                # str(path) + "/**/*.[ch]"
+                cond = z3.And(z3.SuffixOf(z3.StringVal("/**/*.[ch]"), pat.t), z3.BoolVal(rec is True))
+            s.ghost["bad_glob"] = z3.Or(s.ghost["bad_glob"], z3.Not(cond))
+            s.ghost["glob_calls"] = s.ghost["glob_calls"] + 1
+            return [(s, s.alloc(ObjCell("GlobResult", {})))]
+
+        orig = E.pymodule_attr
+
+        def pymodule_attr(mod, attr):
+            if mod.name == "glob" and attr == "glob":
+                return Builtin("glob.glob", m_glob)
+            if mod.name == "pathlib" and attr == "Path":
+                return Builtin("pathlib.Path", m_path)
+            if mod.name == "sys" and attr == "exit":
+                return E.spec_builtins["__sys_exit__"]
+            return orig(mod, attr)
+        E.pymodule_attr = pymodule_attr
+        E.augassign_models["WorkList"] = lambda E_, s, cur, op, rhs: [(s, cur)]     # stack += glob(...): already in the list
+        E.models["norminette/file.py:File"] = lambda E_, s, a, k: [(s, s.alloc(ObjCell("FileObj", {"item": a[0]})))]
+        for nm, arr in (("w_exists", w.exists), ("w_isfile", w.isfile), ("w_isdir", w.isdir)):
+            E.spec_builtins[nm] = Builtin(nm, lambda E_, s, a, k, arr=arr: [(s, mk_bool(z3.Select(arr, int_term(a[0]))))])
+        E.spec_builtins["w_suffix"] = Builtin("w_suffix", lambda E_, s, a, k: [(s, SStr(z3.Select(w.suffix, int_term(a[0]))))])
+        E.spec_builtins["w_n"] = Builtin("w_n", lambda E_, s, a, k: [(s, mk_int(w.n))])
+        E.spec_builtins["glob_calls"] = Builtin("glob_calls", lambda E_, s, a, k: [(s, mk_int(s.ghost["glob_calls"]))])
+        E.spec_builtins["bad_glob"] = Builtin("bad_glob", lambda E_, s, a, k: [(s, mk_bool(s.ghost["bad_glob"]))])
+        argfile = st.alloc(ObjCell("WorkList", {"__len__": SInt(w.n)}))
+        st.assume(w.n >= 1)       # at least one argument (the no-argument case is the second variant)
+        args = st.alloc(ObjCell("Args", {"cfile": None, "hfile": None, "filename": None, "file": argfile,
+                                         "use_gitignore": False}))
+        return {"args": args, "files": st.alloc(ListCell(()))}
+    c.setup = setup
+    ACC = "lambda k: w_isfile(k) and w_suffix(k) in ('.c', '.h')"
+    c.rais("SystemExit")
+    c.ens_exc("SystemExit", "exc_arg == 1 and exists(0, w_n(), lambda k: not w_exists(k))", "missing_path_aborts_with_1")
+    c.ens(f"len(final('files')) == count(0, w_n(), {ACC})", "exactly_the_c_and_h_files_once_each")
+    c.ens("forall(0, w_n(), lambda k: w_exists(k))", "every_path_exists_when_discovery_completes")
+    c.ens("glob_calls() == count(0, w_n(), lambda k: w_isdir(k))", "one_glob_per_directory")
+    c.ens("not bad_glob()", "glob_pattern_is_recursive_c_and_h")
+    c.loop(0, invariant=[f"len(files) == count(0, idx, {ACC})", "forall(0, idx, lambda k: w_exists(k))",
+                         "glob_calls() == count(0, idx, lambda k: w_isdir(k))", "not bad_glob()"],
+           types={"file": "opaque", "path": "opaque"}, pure=True)
+    return c
+
+
+def discovery_variants():
+    """further specification cases of the discovery slice: no argument, inline content,
+    --use-gitignore"""
+    out = []
+
+    # ---- no path argument: the current directory tree
+    base = discovery_contract()
+    c = Contract(MAIN)
+    c.body_slice = discovery_slice
+    c.variant = "no_argument"
+    inner_setup = base.setup
+
+    def setup_noarg(E, st):
+        d = inner_setup(E, st)
+        args = d["args"]
+        cell = st.cell(args)
+        st.set_cell(args, cell.with_attr("file", st.alloc(ListCell(()))))
+        # glob.glob("**/*.[ch]", recursive=True) answers the work list
+        w_list = cell.attrs["file"]
+        E.seq_models["GlobResult"] = E.seq_models["WorkList"]
+        return d
+    c.setup = setup_noarg
+    c.rais("SystemExit")
+    for name, e in base.ensures:
+        if name == "one_glob_per_directory":
+            c.ens("glob_calls() == 1 + count(0, w_n(), lambda k: w_isdir(k))", "cwd_glob_plus_one_per_directory")
+        else:
+            c.ens(e, name)
+    c.exc_ensures = list(base.exc_ensures)
+    ACC = "lambda k: w_isfile(k) and w_suffix(k) in ('.c', '.h')"
+    c.loop(0, invariant=[f"len(files) == count(0, idx, {ACC})", "forall(0, idx, lambda k: w_exists(k))",
+                         "glob_calls() == 1 + count(0, idx, lambda k: w_isdir(k))", "not bad_glob()"],
+           types={"file": "opaque", "path": "opaque"}, pure=True)
+    out.append(c)
+
+    # ---- inline content: discovery is bypassed
+    c2 = Contract(MAIN)
+    c2.body_slice = discovery_slice
+    c2.variant = "inline_content"
+
+    def setup_inline(E, st):
+        d = inner_setup(E, st)
+        args = d["args"]
+        cell = st.cell(args)
+        which = z3.Bool(fresh_name("is_cfile"))
+        data = SStr(z3.String(fresh_name("data")))
+        st.assume(z3.Length(data.t) > 0)
+        c_ = cell.with_attr("cfile", SOpt(z3.Not(which), data)).with_attr("hfile", SOpt(which, data)) \
+            .with_attr("filename", SOpt(z3.Bool(fresh_name("no_filename")), SStr(z3.String(fresh_name("filename")))))
+        st.set_cell(args, c_)
+        return d
+    c2.setup = setup_inline
+    c2.ens("len(final('files')) == 1 and glob_calls() == 0", "exactly_one_inline_file_no_discovery")
+    out.append(c2)
+    return out
+
+
+def gitignore_variant():
+    base = discovery_contract()
+    c = Contract(MAIN)
+    c.body_slice = discovery_slice
+    c.variant = "use_gitignore"
+    inner_setup = base.setup
+    holder = {}
+
+    def setup(E, st):
+        d = inner_setup(E, st)
+        args = d["args"]
+        st.set_cell(args, st.cell(args).with_attr("use_gitignore", True))
+        rc = z3.Array(fresh_name("git_rc"), I, I)
+        holder["rc"] = rc
+        st.ghost["git_calls"] = z3.IntVal(0)
+        E.seq_models["SymList"] = lambda E_, s, ref: (int_term(s.cell(ref).attrs["__len__"]),
+                                                      lambda i, s2=None: Opaque("file object"))
+
+        def m_run(E_, s, a, k):
+            n = s.ghost["git_calls"]
+            s.ghost["git_calls"] = n + 1
+            return [(s, s.alloc(ObjCell("Proc", {"returncode": mk_int(z3.Select(rc, n))})))]
+        orig = E.pymodule_attr
+
+        def pymodule_attr(mod, attr):
+            if mod.name == "subprocess" and attr == "run":
+                return Builtin("subprocess.run", m_run)
+            return orig(mod, attr)
+        E.pymodule_attr = pymodule_attr
+        E.spec_builtins["git_rc"] = Builtin("git_rc", lambda E_, s, a, k: [(s, mk_int(z3.Select(rc, int_term(a[0]))))])
+        E.spec_builtins["git_calls"] = Builtin("git_calls", lambda E_, s, a, k: [(s, mk_int(s.ghost["git_calls"]))])
+        return d
+    c.setup = setup
+    ACC = "lambda k: w_isfile(k) and w_suffix(k) in ('.c', '.h')"
+    NF = f"count(0, w_n(), {ACC})"
+    c.rais("SystemExit")
+    c.ens(f"len(final('files')) == count(0, {NF}, lambda k: git_rc(k) == 1)", "keeps_exactly_the_files_git_does_not_ignore")
+    c.ens(f"git_calls() == {NF}", "one_git_query_per_discovered_file")
+    c.ens(f"forall(0, {NF}, lambda k: git_rc(k) != 128)", "no_git_failure_when_it_completes")
+    c.loop(0, invariant=[f"len(files) == count(0, idx, {ACC})", "forall(0, idx, lambda k: w_exists(k))",
+                         "git_calls() == 0"],
+           types={"file": "opaque", "path": "opaque"}, pure=True)
+    c.loop(1, invariant=["len(tmp_targets) == count(0, idx, lambda k: git_rc(k) == 1)", "git_calls() == idx",
+                         "forall(0, idx, lambda k: git_rc(k) != 128)", f"idx_n == {NF}"],
+           types={"target": "opaque", "exit_code": "int", "command": "opaque"}, pure=True)
+    return c
